@@ -139,7 +139,7 @@ def extract(config="default", verbose=False):
         lockf.close()
 
 
-def _prune(root, keep, maxn=3):
+def _prune(root, keep, maxn=8):
     try:
         ents = [(os.path.getmtime(os.path.join(root, d)), d) for d in os.listdir(root)]
     except FileNotFoundError:
